@@ -111,10 +111,13 @@ pub struct BodyCheck {
     pub key: u64,
     pub received: u64,
     pub first_bad: Option<u64>,
+    /// the bytes received at `first_bad` (up to 32), for diagnosis
+    #[serde(default)]
+    pub bad_bytes: Vec<u8>,
 }
 impl BodyCheck {
     pub fn new(key: u64) -> Self {
-        BodyCheck { key, received: 0, first_bad: None }
+        BodyCheck { key, received: 0, first_bad: None, bad_bytes: Vec::new() }
     }
     pub fn feed(&mut self, data: &[u8]) {
         if self.first_bad.is_none() {
@@ -122,6 +125,7 @@ impl BodyCheck {
                 let i = self.received + j as u64;
                 if *b != gen_byte(self.key, i) {
                     self.first_bad = Some(i);
+                    self.bad_bytes = data[j..data.len().min(j + 32)].to_vec();
                     break;
                 }
             }
@@ -155,4 +159,16 @@ pub fn wr(fd: i32, buf: &[u8]) -> Io {
 /// Close with unread data pending => the peer sees ECONNRESET on AF_UNIX, like a TCP RST.
 pub fn reset(fd: i32) {
     sys::close(fd);
+}
+
+/// Diagnosis: where do the bytes observed at a mismatch come from? Searches the generators of the
+/// given keys for the 16-byte window; returns (key, offset) of the first match.
+pub fn locate_bytes(sample: &[u8], keys: &[u64], max_len: u64) -> Option<(u64, u64)> {
+    if sample.len() < 12 { return None; }
+    let w = &sample[..12];
+    for k in keys {
+        let body = gen_body(*k, max_len as usize);
+        if let Some(p) = body.windows(w.len()).position(|x| x == w) { return Some((*k, p as u64)); }
+    }
+    None
 }
